@@ -125,7 +125,11 @@ func (f *unorderedArrayFoldIncr[A, B]) ChildChanged(child INode) {
 }
 
 func (f *unorderedArrayFoldIncr[A, B]) Stabilize(_ context.Context) error {
-	if !f.folded {
+	// The running value is only kept up to date by change notifications, and those stop
+	// while the node is out of the graph: an input that changed while nothing observed the
+	// fold was never reported. A node that has not changed since it (re)entered the graph
+	// -- changedAt is zeroed when a node leaves it -- therefore folds everything again.
+	if !f.folded || f.n.changedAt == 0 {
 		f.value = f.initial
 		for index, input := range f.inputs {
 			value := input.Value()
